@@ -110,3 +110,28 @@
   (forall ((pre Int) (dix (Array Int Int)) (idc (Array Int Int)) (mps (Array Int (Array Int Int))) (d Int) (k Int))
     (=> (<= k 0) (= (merkle.delRoot pre dix idc mps d k) pre)))
   :reveal (merkle.delRoot))
+
+; the validity of the first k rounds depends only on the first k commitments and paths
+(lemma insValid_ext
+  (forall ((start Int) (pre Int) (idc (Array Int Int)) (mps (Array Int (Array Int Int))) (idc2 (Array Int Int)) (mps2 (Array Int (Array Int Int))) (d Int) (k Int))
+    (! (=> (forall ((t Int)) (=> (and (<= 0 t) (< t k)) (and (= (select idc t) (select idc2 t)) (= (select mps t) (select mps2 t)))))
+           (= (merkle.insValid start pre idc mps d k) (merkle.insValid start pre idc2 mps2 d k)))
+       :pattern ((merkle.insValid start pre idc mps d k) (merkle.insValid start pre idc2 mps2 d k))))
+  :induct k :inst (start pre idc mps idc2 mps2 d (- k 1))
+  :unfold ((merkle.insValid start pre idc mps d k) (merkle.insValid start pre idc2 mps2 d k))
+  :reveal (merkle.insRoot))
+(lemma delRoot_ext
+  (forall ((pre Int) (dix (Array Int Int)) (idc (Array Int Int)) (mps (Array Int (Array Int Int))) (dix2 (Array Int Int)) (idc2 (Array Int Int)) (mps2 (Array Int (Array Int Int))) (d Int) (k Int))
+    (! (=> (forall ((t Int)) (=> (and (<= 0 t) (< t k)) (and (= (select dix t) (select dix2 t)) (= (select idc t) (select idc2 t)) (= (select mps t) (select mps2 t)))))
+           (= (merkle.delRoot pre dix idc mps d k) (merkle.delRoot pre dix2 idc2 mps2 d k)))
+       :pattern ((merkle.delRoot pre dix idc mps d k) (merkle.delRoot pre dix2 idc2 mps2 d k))))
+  :induct k :inst (pre dix idc mps dix2 idc2 mps2 d (- k 1))
+  :unfold ((merkle.delRoot pre dix idc mps d k) (merkle.delRoot pre dix2 idc2 mps2 d k)))
+(lemma delValid_ext
+  (forall ((pre Int) (dix (Array Int Int)) (idc (Array Int Int)) (mps (Array Int (Array Int Int))) (dix2 (Array Int Int)) (idc2 (Array Int Int)) (mps2 (Array Int (Array Int Int))) (d Int) (k Int))
+    (! (=> (forall ((t Int)) (=> (and (<= 0 t) (< t k)) (and (= (select dix t) (select dix2 t)) (= (select idc t) (select idc2 t)) (= (select mps t) (select mps2 t)))))
+           (= (merkle.delValid pre dix idc mps d k) (merkle.delValid pre dix2 idc2 mps2 d k)))
+       :pattern ((merkle.delValid pre dix idc mps d k) (merkle.delValid pre dix2 idc2 mps2 d k))))
+  :induct k :inst (pre dix idc mps dix2 idc2 mps2 d (- k 1))
+  :unfold ((merkle.delValid pre dix idc mps d k) (merkle.delValid pre dix2 idc2 mps2 d k))
+  :lemmas (delRoot_ext))
